@@ -128,6 +128,7 @@ PROPS['C14']={
   {'name':'keyid_prefix','module':'harness.C14','cls':'KeyIdPrefix','quick':{},'thorough':{},'validate':{'quick':4,'thorough':8}},
   {'name':'link_file_names','module':'harness.C14','cls':'LinkFileNames','quick':{},'thorough':{},'validate':{'quick':8,'thorough':24}},
   {'name':'rules_non_normal','module':'harness.C14','cls':'RulesNonNormal','quick':{},'thorough':{}},
+  {'name':'rules_long_paths','module':'harness.C14','cls':'RulesLongPaths','quick':{'lens':[255,4097]},'thorough':{'lens':[255,4000,4097,70000]},'validate':{'quick':6,'thorough':16}},
   {'name':'importers','module':'harness.C14','cls':'Importers','quick':{},'thorough':{}},
   {'name':'pae_prefix','module':'harness.C20','cls':'UnpackTotal','quick':{'n':6,'shape':'prefix'},'thorough':{'n':9,'shape':'prefix'}},
   {'name':'pae_free','module':'harness.C20','cls':'UnpackTotal','quick':{'n':7,'shape':'free'},'thorough':{'n':8,'shape':'free'}},
@@ -137,18 +138,19 @@ PROPS['C14']={
 
 WIRE_ASSUME=UNIT_ASSUME+['serde data models: Serializer (Python model of serde_json::value::Serializer) and Deserializer (one model of serde_json\'s from_str/from_slice/from_reader/from_value over a Value tree plus a channel tag; a borrowed &str request succeeds only for an unescaped string of from_str/from_slice; owned String requests always succeed); the crate\'s Serialize/Deserialize impls and derive-generated visitors (incl. flatten, untagged, deserialize_with) run from MIR against them',
   'the JSON text layer itself (tokenizer, whitespace, number syntax, recursion limit) is serde_json\'s and outside the claim; native replay runs every sample through the real from_str / escaped text / from_reader / from_value / from_slice / pretty text']
+WIRE_RATE={'keyid':1,'keytype':1,'pubkey':1,'signature':1,'hashvalue':1,'command':2,'vpath':2,'metablock':2,'wrapper':2}
 WIRE_TYPES_Q=['rule','command','vpath','keyid','keytype','hashvalue','byproducts','step','inspection','signature','pubkey','link','layout','metablock','wrapper']
 PROPS['C17']={
  'bounds_statement':'for every wire type of the crate (rule, command, path, key id/type, hash value, byproducts incl. the flattened map, step, inspection, signature, public key, link, layout, signed block, untagged wrapper): the serialised form of a value with free string/number leaves is decoded on four channels (borrowed text, escaped text, reader, tree); acceptance and value must coincide.',
  'assumptions':WIRE_ASSUME,
- 'obligations':[{'name':w,'module':'harness.wire','cls':'RoundTrip','quick':{'what':w,'prop':'C17','nbytes':1},'thorough':{'what':w,'prop':'C17','nbytes':2},'validate':{'quick':6,'thorough':24}} for w in WIRE_TYPES_Q]}
+ 'obligations':[{'name':w,'module':'harness.wire','cls':'RoundTrip','quick':{'what':w,'prop':'C17','nbytes':1,'rate':WIRE_RATE.get(w,10)},'thorough':{'what':w,'prop':'C17','nbytes':2,'rate':WIRE_RATE.get(w,10)},'validate':{'quick':6,'thorough':24}} for w in WIRE_TYPES_Q]}
 PROPS['C17']['obligations']+=[{'name':'adversarial_'+w,'module':'harness.C14','cls':'DecodeAdversarial','quick':{'what':w,'nbytes':1,'prop':'C17'},'thorough':{'what':w,'nbytes':2,'prop':'C17'},'validate':{'quick':6,'thorough':24},
    **({'tier_only':'thorough'} if w in ('layout','statement_naive','metablock_layout','statement_slsa1','predicate_slsa2') else {})} for w in ADV_TYPES]
 PROPS['C17']['bounds_statement']+='  Also documents that are NOT the output of the serialiser: every single-node mutation of a valid document of each type (see C14 decode obligations) must be accepted or rejected alike on all four channels and decode to equal values.'
 PROPS['C16']={
  'bounds_statement':'same pipeline as C17, asserting serialise -> parse = identity (value equality through the crate\'s own PartialEq-equivalent structure) for every wire type incl. every rule form with keyword-like operands (IN, WITH, FROM, MATCH, trailing-slash prefixes), optional fields present/absent, empty collections, key table self-consistency; byte-identical re-serialisation follows from value equality because serialisation is a function of the value.',
  'assumptions':WIRE_ASSUME+['Unicode beyond ASCII in free strings is covered by fixed samples only; pretty printing is serde_json\'s'],
- 'obligations':[{'name':w,'module':'harness.wire','cls':'RoundTrip','quick':{'what':w,'prop':'C16','nbytes':1},'thorough':{'what':w,'prop':'C16','nbytes':2},'validate':{'quick':6,'thorough':24}} for w in WIRE_TYPES_Q]}
+ 'obligations':[{'name':w,'module':'harness.wire','cls':'RoundTrip','quick':{'what':w,'prop':'C16','nbytes':1,'rate':WIRE_RATE.get(w,10)},'thorough':{'what':w,'prop':'C16','nbytes':2,'rate':WIRE_RATE.get(w,10)},'validate':{'quick':6,'thorough':24}} for w in WIRE_TYPES_Q]}
 
 PROPS['C19']={
  'bounds_statement':'(1) Statement v0.1 documents declaring each known / an unknown predicate type around predicate documents of each format, hybrids and the empty object (free leaves), parsed by the version-detecting StatementWrapper from MIR: acceptance implies the declared type names the recognised format, and no predicate document is accepted by two formats; (2) every predicate / statement value of bounded shape (LinkV02, SLSA v0.1 with timestamps in Z and +01:00 notation, SLSA v0.2; Naive and v0.1 statements) serialises to a form that parses back to an equal value on every channel; (3) from_meta / merge carry all link fields over.',
